@@ -519,6 +519,19 @@ func gen(seed uint64, tier string) {
 			mo = 16
 		}
 		orbit(r, base, mo, func(q []ring, ss []spell) { emitPoly("g", q, ss) })
+		// ring order permuted (shell not first): outside ValidPoly as written, so these lines only tie
+		// the model to the code (hole detection must not depend on the ring's position in the slice)
+		if len(base) >= 3 && i%2 == 0 {
+			for rep := 0; rep < 2; rep++ {
+				k := 1 + r.Intn(len(base)-1)
+				q := make([]ring, 0, len(base))
+				for j := range base {
+					q = append(q, respell(base[(j+k)%len(base)], spell{rev: r.Bool(), rot: r.Intn(3), closed: r.Bool()}))
+				}
+				fmt.Fprintf(out, "area g %s\n", G(toPoly(q)))
+				fmt.Fprintf(out, "mcent g %s\n", G(geom.MultiPolygon{toPoly(q)}))
+			}
+		}
 		// float images of the same base (validity is affine invariant)
 		m := randAffine(r)
 		orbit(r, mapRings(m, base), 5+len(base), func(q []ring, ss []spell) { emitPoly("f", q, ss) })
